@@ -315,14 +315,15 @@ theorem selOKB_print (tbl : List (Char × Char)) (n : Nat) (st : SelectStmt) (h 
 /-! ## the induction on the nesting depth -/
 
 /-- **`parseSelectStatement` on the printed tail of a statement of the class**, subqueries nested to any depth. -/
-theorem parseSelect_sub (tbl : List (Char × Char)) : ∀ (n F : Nat) (st : SelectStmt) (s : PState) (k : Str),
-    selOKB tbl n st = true → s.lowerTbl = tbl → Follow k bodyStop → s.Before (selectTail st ++ k) →
-    wp (parseSelect (F + n + 3) false) s (fun r s' => r = st ∧ RT.Stand s' k) (· = .fuel) := by
+theorem parseSelect_sub (tbl : List (Char × Char)) : ∀ (n F : Nat) (tr : Bool) (st : SelectStmt) (s : PState) (k : Str),
+    selOKB tbl n st = true → (tr = true → st.target ≠ none) → s.lowerTbl = tbl → Follow k bodyStop →
+    s.Before (selectTail st ++ k) →
+    wp (parseSelect (F + n + 3) tr) s (fun r s' => r = st ∧ RT.Stand s' k) (· = .fuel) := by
   intro n
   induction n with
-  | zero => intro F st s k h; simp [selOKB] at h
+  | zero => intro F tr st s k h; simp [selOKB] at h
   | succ n ih =>
-    intro F st s k hok htb hk hs
+    intro F tr st s k hok htr htb hk hs
     obtain ⟨f, fs, tgt, hst, hbody, hne, hsrcs⟩ := selOKB_elim tbl n st hok
     have hF : F + (n + 1) + 3 = (F + n + 3) + 1 := by omega
     have hfill : fillOKW tbl st.fill st.fillValue = true := hbody.2.2.2.2.1
@@ -341,7 +342,11 @@ theorem parseSelect_sub (tbl : List (Char × Char)) : ∀ (n F : Nat) (st : Sele
     rw [hst]
     refine selectBody_printW (F + n) (some (parseSelect (F + n + 3) false)) (fun p hp => by cases hp; exact hframe) s
       f fs tgt st.sources (printSources st.sources) st.condition st.dimensions st.fill st.fillValue st.sortFields
-      st.limit st.offset st.slimit st.soffset st.location k hbody ?_ hk hs
+      st.limit st.offset st.slimit st.soffset st.location k tr ?_ hbody ?_ hk hs
+    · intro h1 h2
+      apply htr h1
+      rw [hst]
+      simp [wideSelect, SelectStmt.target, h2]
     intro s3 k' htb3 hk' hb
     obtain ⟨x, xs, hx⟩ : ∃ x xs, st.sources = x :: xs := by
       cases hsx : st.sources with
@@ -359,6 +364,6 @@ theorem parseSelect_sub (tbl : List (Char × Char)) : ∀ (n F : Nat) (st : Sele
       obtain ⟨y', hy'p⟩ := selOKB_print s.lowerTbl n st' hy'
       refine Or.inr ⟨st', y', rfl, hy'p, ?_⟩
       intro s' k'' htb' hk'' hs''
-      exact ih F st' s' k'' hy' htb' hk'' hs''
+      exact ih F false st' s' k'' hy' (fun h => by cases h) htb' hk'' hs''
 
 end InfluxQL
